@@ -653,6 +653,38 @@ impl Callbacks for Cb {
                         o.push(("trait", J::Str(dpath(tcx, tr.def_id))));
                         o.push(("trait_full", J::Str(with_no_trimmed_paths!(format!("{}", tr)))));
                     }
+                    if let ty::Adt(adef, aargs) = selfty.kind() {
+                        let mut vs = Vec::new();
+                        for v in adef.variants() {
+                            let mut fs = Vec::new();
+                            for f in v.fields.iter() {
+                                let fty = f.ty(tcx, aargs);
+                                let (fo, fc) = adt_of(tcx, fty);
+                                let mut peeled = fty;
+                                for _ in 0..6 {
+                                    match peeled.kind() {
+                                        ty::Ref(_, inner, _) => peeled = *inner,
+                                        ty::Adt(d, a) if a.len() > 0 && matches!(
+                                            dpath(tcx, d.did()).as_str(),
+                                            "alloc::rc::Rc" | "alloc::boxed::Box" | "alloc::vec::Vec" | "core::option::Option"
+                                        ) => {
+                                            if let Some(i) = a.types().next() { peeled = i; } else { break; }
+                                        }
+                                        _ => break,
+                                    }
+                                }
+                                fs.push(J::obj(vec![
+                                    ("name", J::Str(f.name.to_string())),
+                                    ("ty", J::Str(ty_str(fty))),
+                                    ("adt", fo.map(J::Str).unwrap_or(J::Null)),
+                                    ("core", fc.map(J::Str).unwrap_or(J::Null)),
+                                    ("is_param", J::Bool(matches!(peeled.kind(), ty::Param(_)))),
+                                ]));
+                            }
+                            vs.push(J::obj(vec![("name", J::Str(v.name.to_string())), ("fields", J::Arr(fs))]));
+                        }
+                        o.push(("inst_variants", J::Arr(vs)));
+                    }
                     let mut ms = Vec::new();
                     for item in tcx.associated_items(did).in_definition_order() {
                         if matches!(item.kind, ty::AssocKind::Fn { .. }) {
